@@ -560,13 +560,18 @@ package tchannel
 //@ func (f *writableFragment) finish(hasMoreFragments bool)
 //@   requires f.checksum != nil && (f.flagsRef == nil || len(f.flagsRef) >= 1)
 //@   requires len(f.checksumRef) == ChecksumType(tcode(f.checksum)).ChecksumSize()
-//@   requires arr(f.flagsRef) != arr(f.checksumRef) || off(f.flagsRef) < off(f.checksumRef)
+//@   requires arr(f.flagsRef) == arr(f.checksumRef) && off(f.flagsRef) < off(f.checksumRef) && f.flagsRef != nil
+//@   requires off(f.checksumRef) + len(f.checksumRef) <= off(f.flagsRef) + len(f.flagsRef)
 //@   modifies elems(f.checksumRef), elems(f.flagsRef)
+//@   label only-flags-and-checksum-bytes-change
+//@   ensures samebytes(f.flagsRef, 1, old(f.flagsRef), 1, off(f.checksumRef) - off(f.flagsRef) - 1)
+//@   ensures samebytes(f.flagsRef, off(f.checksumRef) + len(f.checksumRef) - off(f.flagsRef), old(f.flagsRef), off(f.checksumRef) + len(f.checksumRef) - off(f.flagsRef),
+//@             off(f.flagsRef) + len(f.flagsRef) - off(f.checksumRef) - len(f.checksumRef))
 //@   label checksum-stamped
 //@   ensures len(f.checksumRef) == 4 ==> be32(f.checksumRef, 0) == cssum(cs(f.checksum))
 //@   label more-flag-set-iff-more
 //@   ensures hasMoreFragments && f.flagsRef != nil ==> u8at(f.flagsRef, 0) == 1
-//@   ensures !hasMoreFragments && f.flagsRef != nil && (arr(f.flagsRef) != arr(f.checksumRef) || off(f.flagsRef) + 1 <= off(f.checksumRef)) ==> u8at(f.flagsRef, 0) == old(u8at(f.flagsRef, 0))
+//@   ensures !hasMoreFragments ==> u8at(f.flagsRef, 0) == old(u8at(f.flagsRef, 0))
 //@   property C01 C02
 
 // ===========================================================================
@@ -613,7 +618,7 @@ package tchannel
 //@ pred WF(f *writableFragment) := f != nil && f.frame != nil && FrameFull(f.frame) && f.contents != nil && f.checksum != nil &&
 //@        f.contents.buffer == f.frame.Payload && typed.WB(f.contents) &&
 //@        f.flagsRef != nil && arr(f.flagsRef) == arr(f.frame.Payload) && off(f.flagsRef) == off(f.frame.Payload) && len(f.flagsRef) >= 1 &&
-//@        (f.checksumRef == nil || arr(f.checksumRef) == arr(f.frame.Payload)) && off(f.checksumRef) > off(f.flagsRef) &&
+//@        arr(f.checksumRef) == arr(f.frame.Payload) && off(f.checksumRef) > off(f.flagsRef) && len(f.flagsRef) == len(f.frame.Payload) &&
 //@        len(f.checksumRef) == ChecksumType(tcode(f.checksum)).ChecksumSize() &&
 //@        off(f.checksumRef) + len(f.checksumRef) <= off(f.contents.remaining)
 
@@ -781,6 +786,10 @@ package tchannel
 //@ func (w *fragmentingWriter) Flush() (err error)
 //@   requires FWin(w)
 //@   modifies all
+//@   label chunk-length-field-stamped-before-flush
+//@   atcall flushFragment be16(w.curChunk.sizeRef, 0) == w.curChunk.size
+//@   label checksum-stamped-before-flush
+//@   atcall flushFragment len(w.curFragment.checksumRef) == 4 ==> be32(w.curFragment.checksumRef, 0) == cssum(cs(w.checksum))
 //@   label flush-marks-more-fragments
 //@   ensures nflushed(w.sender) == old(nflushed(w.sender)) + 1 && lastmore(w.sender) == 1
 //@   ensures err == nil ==> FWin(w) && w.curChunk.size == 0 && w.err == nil
@@ -819,6 +828,10 @@ package tchannel
 //@   requires w.err == nil && (w.state == fragmentingWriteInArgument || w.state == fragmentingWriteInLastArgument) ==> FWin(w)
 //@   requires w.err == nil && w.state == fragmentingWriteInLastArgument ==> u8at(w.curFragment.flagsRef, 0) == 0
 //@   modifies all
+//@   label chunk-length-field-stamped-before-flush
+//@   atcall flushFragment be16(w.curChunk.sizeRef, 0) == w.curChunk.size
+//@   label checksum-stamped-before-flush
+//@   atcall flushFragment len(w.curFragment.checksumRef) == 4 ==> be32(w.curFragment.checksumRef, 0) == cssum(cs(w.checksum))
 //@   ensures old(w.err) != nil ==> err == old(w.err)
 //@   ensures old(w.err) == nil && old(w.state) != fragmentingWriteInArgument && old(w.state) != fragmentingWriteInLastArgument ==> err != nil
 //@   label last-fragment-not-marked-more
